@@ -29,7 +29,7 @@ RULE = ("(a) exhaustive: 4096 regular files, one per permission value 0..07777, 
         "overridden extension list.")
 ASSUMPTIONS = [
     "user/group text for ids without a passwd/group entry, created/accessed/device, mime/is_text/is_binary and metadata under `symlinks` are not asserted",
-    "abspath of a symbolic link (it is resolved through the link) and xattr columns of non-regular, non-directory entries are not asserted",
+    "abspath of a symbolic link (it is resolved through the link) is not asserted",
     "FIFOs are absent from trees whose query opens files (open() on a FIFO blocks)",
 ]
 EXHAUSTIVE_NOTE = "all 4096 permission values on disk and as zip-entry modes for all 7 file types; all 41 capabilities x 6 flag combinations"
@@ -87,6 +87,7 @@ def enumerate_cases(tier):
     for lo in range(0, 41, 6):
         cases.append({"kind": "caps", "caps": list(range(lo, min(41, lo + 6)))})
     cases.append({"kind": "default-lists"})
+    cases.append({"kind": "xattr-own"})
     # every extension list overridden in turn (and the defaults) on one tree holding all META_NAMES
     tree = {n: {"t": "f", "c": ""} for n in META_NAMES}
     cases.append({"kind": "meta", "tree": tree, "override": None, "root": "."})
@@ -286,6 +287,55 @@ def check_perm_zip(out, base, ch):
     out.nt_keys = keys
     out.classes.append("perm-zip-" + ch)
     out.sample = {"kind": "perm-zip", "type": ch, "rows": len(rows)}
+
+
+def check_xattr_own(out, base):
+    """Extended attributes and capabilities are the entry's OWN (as lstat / l*xattr give them): a link does not show
+    its target's, a pipe is not opened, an unreadable file still has them."""
+    f = os.path.join(base, "withx")
+    open(f, "w").close()
+    os.setxattr(f, "user.test", b"v")
+    c = os.path.join(base, "capfile")
+    open(c, "w").close()
+    os.setxattr(c, "security.capability", cap_blob([13], "p", True))
+    os.symlink("withx", os.path.join(base, "l_withx"))
+    os.symlink("capfile", os.path.join(base, "l_cap"))
+    os.symlink("nowhere", os.path.join(base, "l_dangling"))
+    os.mkfifo(os.path.join(base, "pipe"))
+    u = os.path.join(base, "unreadable")
+    open(u, "w").close()
+    os.setxattr(u, "user.test", b"v")
+    os.chmod(u, 0)
+    os.chmod(base, 0o755)
+    cols = ["name", "has_xattrs", "caps", "has_caps()", "has_xattr(user.test)", "xattr(user.test)"]
+    q = "select " + ", ".join(cols) + " from . into list"
+    want = {"withx": ("true", "", "false", "true", "v"), "capfile": ("true", caps_text([13], "p", True), "true", "false", ""),
+            "l_withx": ("false", "", "false", "false", ""), "l_cap": ("false", "", "false", "false", ""),
+            "l_dangling": ("false", "", "false", "false", ""), "pipe": ("false", "", "false", "false", ""),
+            "unreadable": ("true", "", "false", "true", "v")}
+    for nobody in (False, True):
+        res = runner.run([q], cwd=base, nobody=nobody, wall=10)
+        out.evals += 1
+        if res.wall_timeout:
+            out.add("C04/xattr/blocks", query=q, note="the query did not end within 10 s (a pipe in the tree is opened)")
+            return
+        if res.status not in (0, 1):
+            out.add("C04/xattr/run-failed", status=res.status, stderr=res.err[:200])
+            return
+        for r in runner.rows(res.out, len(cols)):
+            w = want.get(r[0])
+            if w is None:
+                continue
+            # an empty cell is accepted where the value is false / empty anyway
+            norm = lambda t: tuple("false" if (x == "" and i in (0, 2, 3)) else x for i, x in enumerate(t))
+            got_t, want_t = norm(r[1:]), norm(w)
+            if nobody and r[0] == "unreadable":
+                got_t, want_t = got_t[:3], want_t[:3]     # the VALUE of a user.* attribute needs read permission (xattr(7))
+            if got_t != want_t:
+                out.add("C04/xattr/not-the-entry's-own/%s" % ("unprivileged" if nobody else "root"), entry=r[0], printed=list(r[1:]), want=list(w))
+    out.nt_keys = ["xattr-own|" + n for n in want]
+    out.classes.append("xattr-own")
+    out.sample = {"kind": "xattr-own", "query": q}
 
 
 def check_caps(out, base, capnums):
@@ -531,6 +581,8 @@ def check(case):
             check_perm_disk(out, base)
         elif k == "perm-zip":
             check_perm_zip(out, base, case["type"])
+        elif k == "xattr-own":
+            check_xattr_own(out, base)
         elif k == "caps":
             check_caps(out, base, case["caps"])
         elif k == "default-lists":
